@@ -4,6 +4,7 @@
    `mac : key → msg → bytes` (HMAC-SHA256 keyed with `ExpandedKey.offers_base_key` in the driver) and
    an abstract `pubOf : secret → public key`.  No Mathlib. -/
 import LdkModel.Model.Merkle
+import LdkModel.Generated.C18Meta
 namespace Ldk.OfferMeta
 
 abbrev Bytes := List UInt8
@@ -50,11 +51,15 @@ def verifyHmac (key iv md : Bytes) (encPid : Option Bytes) (tlvs : Bytes) : Opti
 inductive Verdict | err | okNoKeys | okKeys (secret : Bytes)
   deriving DecidableEq, Repr
 
-/-- mirrors signer.rs::verify_metadata -/
+/-- mirrors signer.rs::verify_metadata; its three decisions (which branch, WHICH REPRESENTATION of the
+    two public keys is compared, the HMAC comparison) are the definitions of Generated/C18Meta.lean,
+    translated from the Rust text on every run (tools/gen_c18_meta.py).  `pubOf hmac` is the public key
+    of `Keypair::from_secret_key(hmac)` (secp256k1: trusted, a parameter), keys are 33-byte compressed
+    encodings (Model/SecpKey.lean). -/
 def verifyTail (pubOf : Bytes → Bytes) (md hmac signingPubkey : Bytes) : Verdict :=
-  if md.length == NONCE_LEN then
-    if pubOf hmac == signingPubkey then .okKeys hmac else .err
-  else if md.length == NONCE_LEN + MAC_LEN && md.drop NONCE_LEN == hmac then .okNoKeys else .err
+  if C18Meta.derivesKeys md.length then
+    if C18Meta.keysEq signingPubkey (pubOf hmac) then .okKeys hmac else .err
+  else if C18Meta.hmacOk md hmac then .okNoKeys else .err
 
 /-- mirrors signer.rs::verify_recipient_metadata -/
 def verifyRecipient (pubOf : Bytes → Bytes) (key iv signingPubkey tlvs md : Bytes) : Verdict :=
